@@ -683,7 +683,14 @@ func (g *G) constDirectives(loc string) []m.Dir { return g.directivesWith(loc, t
 // response-name collisions: two aliases, fragments spread several times in exclusive and
 // non-exclusive contexts, the same fields reached through different parents. It targets the
 // field-merging rule and its caches.
-func CollisionDoc(r *core.Rand, mg *tsys.Merged) *m.Doc {
+func CollisionDoc(r *core.Rand, mg *tsys.Merged) *m.Doc { return collisionDoc(r, mg, false) }
+
+// CyclicCollisionDoc is CollisionDoc with spreads allowed to go to ANY fragment, itself included (1-3 fragments): the
+// documents are invalid (fragment cycles) and full of overlapping response names inside the cycles, which is where a
+// rule that follows spreads must neither loop nor depend on what was visited first.
+func CyclicCollisionDoc(r *core.Rand, mg *tsys.Merged) *m.Doc { return collisionDoc(r, mg, true) }
+
+func collisionDoc(r *core.Rand, mg *tsys.Merged, cyclic bool) *m.Doc {
 	g := New(r, mg, &Opts{NoVariables: true, NoDirectives: true})
 	rootName := mg.Roots["query"]
 	root := mg.Types[rootName]
@@ -697,6 +704,9 @@ func CollisionDoc(r *core.Rand, mg *tsys.Merged) *m.Doc {
 		}
 	}
 	nf := 2 + r.Intn(3)
+	if cyclic {
+		nf = 1 + r.Intn(3)
+	}
 	frs := make([]*m.Def, nf)
 	for i := range frs {
 		frs[i] = &m.Def{IsFragment: true, Name: fmt.Sprintf("C%d", i), TypeCond: comps[r.Intn(len(comps))]}
@@ -738,7 +748,11 @@ func CollisionDoc(r *core.Rand, mg *tsys.Merged) *m.Doc {
 				for _, c := range g.overlappingTypes(t) {
 					ok[c] = true
 				}
-				for j := minFrag; j < nf; j++ {
+				from := minFrag
+				if cyclic {
+					from = 0
+				}
+				for j := from; j < nf; j++ {
 					if ok[frs[j].TypeCond] && r.Chance(1, 2) {
 						out = append(out, &m.Sel{Kind: m.SSpread, Name: frs[j].Name})
 						break
@@ -788,7 +802,14 @@ func CollisionDoc(r *core.Rand, mg *tsys.Merged) *m.Doc {
 // implement Pet with friend: Person and mate: Pet), a document in which two fragments on one type
 // are compared under mutually exclusive parents AND spread side by side, in either order. The bodies
 // of the fragments are collision-style selections; the reference validator decides validity.
-func PetsScenarioDoc(r *core.Rand, mg *tsys.Merged) *m.Doc {
+func PetsScenarioDoc(r *core.Rand, mg *tsys.Merged) *m.Doc { return petsScenarioDoc(r, mg, false) }
+
+// CyclicPetsScenarioDoc is the same scenario with a spread cycle through the compared fragments (CA -> CA2 -> CA, CA <-> CB or
+// CA -> CA): the pair is met first under mutually exclusive parents and then side by side, or the other way round, while
+// following spreads never ends by itself. The documents are invalid (NoFragmentCycles); what matters is that validation returns.
+func CyclicPetsScenarioDoc(r *core.Rand, mg *tsys.Merged) *m.Doc { return petsScenarioDoc(r, mg, true) }
+
+func petsScenarioDoc(r *core.Rand, mg *tsys.Merged, cyclic bool) *m.Doc {
 	tName, via, rootField := "Person", "friend", "owner"
 	if r.Bool() {
 		tName, via, rootField = "Pet", "mate", "pet"
@@ -826,8 +847,30 @@ func PetsScenarioDoc(r *core.Rand, mg *tsys.Merged) *m.Doc {
 		op.Sel = []*m.Sel{side, excl}
 	}
 	defs := []*m.Def{op, fa, fb}
-	p := r.Perm(3)
-	return &m.Doc{Defs: []*m.Def{defs[p[0]], defs[p[1]], defs[p[2]]}}
+	if cyclic {
+		at := func(d *m.Def, s *m.Sel) {
+			i := r.Intn(len(d.Sel) + 1)
+			d.Sel = append(d.Sel[:i], append([]*m.Sel{s}, d.Sel[i:]...)...)
+		}
+		switch r.Intn(3) {
+		case 0:
+			fa2 := &m.Def{IsFragment: true, Name: "CA2", TypeCond: tName, Sel: body()}
+			at(fa, spread("CA2"))
+			at(fa2, spread("CA"))
+			defs = append(defs, fa2)
+		case 1:
+			at(fa, spread("CB"))
+			at(fb, spread("CA"))
+		default:
+			at(fa, spread("CA"))
+		}
+	}
+	p := r.Perm(len(defs))
+	out := &m.Doc{}
+	for _, i := range p {
+		out.Defs = append(out.Defs, defs[i])
+	}
+	return out
 }
 
 // sortedVarNames: map iteration order must never influence what is generated.
